@@ -43,6 +43,7 @@ const (
 	Raw              = "raw"         // A = ECMAScript statements (js only; not modelled)
 	RejectUnless     = "rejunless"   // A=key V=value: return null unless bindings[A] equals V (a guard that looks at its candidate)
 	ThrowIf          = "throwif"     // A=key V=value: fail if bindings[A] equals V
+	InPlace          = "inplace"     // native only, first op: work on the very map that was given (the bs.Extend idiom of the repository's own native actions) instead of a copy
 )
 
 // Trace, when non-nil, receives the canonical JSON of the bindings every native action or guard is called
@@ -175,6 +176,9 @@ func (p *Prog) NativeAction() core.Action {
 		w := in.Copy()
 		if in == nil {
 			w = match.NewBindings()
+		}
+		if len(ops) > 0 && ops[0].K == InPlace && in != nil {
+			w = in
 		}
 		exe := core.NewExecution(nil)
 		for _, o := range ops {
